@@ -5,6 +5,10 @@ use crate::deploy::Fee3;
 use crate::engine::{default_cfg, explore, replay_trace, Evidence};
 use crate::scn_pair::{Kinds, PairRoot, PairScn, Probe};
 
+/// a fee set in which the protocol fee dwarfs the swap and burn fees (60% / 0 / 10%): anything that confuses the three
+/// amounts moves value between the reserves, the ledger and the burn
+pub const PROTOCOL_HEAVY: Fee3 = Fee3::new(600_000_000_000_000_000, 0, 100_000_000_000_000_000);
+
 pub const FEES: [Fee3; 4] = [
     Fee3::new(0, 0, 0),
     Fee3::new(1_000_000_000_000_000, 2_000_000_000_000_000, 1_000_000_000_000_000),
@@ -51,6 +55,14 @@ pub fn roots(tier: &str) -> Vec<PairRoot> {
             }
         }
     }
+    // a pool whose protocol fee is larger than its swap and burn fees together (0.5% / 0.1% / 0.1%)
+    if tier != "deep" {
+        v.push(PairRoot { label: "NN/fees(0.5%,0.1%,0.1%)/first[1e9, 1e9]/preswaps=true".into(), kinds: Kinds::NN, decimals: [6, 6], fees: Fee3::new(5_000_000_000_000_000, 1_000_000_000_000_000, 1_000_000_000_000_000), first: [1_000_000_000, 1_000_000_000], pre_swaps: true });
+    }
+    // reserves on the scale of an 18-decimals asset (every tier): 1e24 : 3e21 base units, amounts far above 2^64
+    if tier != "deep" {
+        v.push(PairRoot { label: "NC/fees1/first[1e24, 3e21]/preswaps=true".into(), kinds: Kinds::NC, decimals: [18, 18], fees: FEES[1], first: [10u128.pow(24), 3 * 10u128.pow(21)], pre_swaps: true });
+    }
     v
 }
 
@@ -59,7 +71,7 @@ pub fn scenario(tier: &str, reduced: bool) -> PairScn {
         property: "C01".into(),
         stable_amp: None,
         roots: roots(tier),
-        fee_alphabet: vec![FEES[0], FEES[2]],
+        fee_alphabet: vec![FEES[0], FEES[2], PROTOCOL_HEAVY],
         probe: Probe::None,
         reduced,
     }
